@@ -57,6 +57,7 @@ class DaliServerModel:
         self.connections = 0
         self.closed = 0
         self.referee_errors = []
+        self.fail = None                   # "send" | "recv": the connection breaks at the next such call
 
     def handle(self, msg):
         self.requests.append(bytes(msg))
@@ -84,6 +85,10 @@ class FakeSocket:
     def send(self, data):
         if self.is_closed:
             raise OSError("socket closed")
+        if self.model.fail == "send":
+            self.model.fail = None
+            self.model.world.probe("connection-reset-on-send")
+            raise ConnectionResetError(104, "Connection reset by peer")
         self.pending += self.model.handle(bytes(data))
         return len(data)
 
@@ -92,6 +97,10 @@ class FakeSocket:
     def recv(self, n):
         if self.is_closed:
             raise OSError("socket closed")
+        if self.model.fail == "recv":
+            self.model.fail = None
+            self.model.world.probe("connection-reset-on-recv")
+            raise ConnectionResetError(104, "Connection reset by peer")
         out, self.pending = self.pending[:n], self.pending[n:]
         return out
 
@@ -205,6 +214,8 @@ def gen_plan(r, eng, seed, prop):
         elif eng == "atx" and c.sendtwice and len(c.frame) == 16 and r.random() < 0.08:
             o = ["spurious", pool.pop()]
         ops.append({"cmd": s, "out": o})
+    if eng == "daliserver" and ops and r.random() < 0.2:
+        ops[-1]["conn_fault"] = r.choice(["send", "recv"])
     return {"engine": "syncsim", "property": prop, "driver": eng, "seed": seed,
             "knobs": {"multi": r.random() < 0.5}, "ops": ops}
 
@@ -251,6 +262,7 @@ def execute(plan):
                 for op in plan["ops"]:
                     n0 = len(model.requests)
                     cur["op"] = op
+                    model.fail = op.get("conn_fault")
                     try:
                         results.append(("ok", d.send(cmds.mk_cmd(op["cmd"])), n0))
                     except Exception as e:          # noqa: BLE001
@@ -297,6 +309,12 @@ def run_plan_c16(plan, prop, judge_response):
         kinds.add(out[0])
         if drv == "daliserver" and len(cmd.frame) != 16:
             continue        # refusal of unsupported lengths is C18
+        if op.get("conn_fault"):
+            # the exchange with the server broke down: nothing is known about the bus
+            if st != "raised":
+                V("connection-loss-reported-as-answer", "op %d %s: the connection was reset on %s, send() returned %r" % (
+                    i, cmd, op["conn_fault"], getattr(val, "raw_value", val)), site=op["conn_fault"])
+            continue
         if st == "raised":
             V("send-raised", "op %d %s: %r" % (i, cmd, val), site=type(val).__name__)
             continue
